@@ -60,7 +60,8 @@ func (m *orderMon) Observe(h *Hand, t *Trans) *vlib.Violation {
 	if t.Op.K == "act" && t.Err == nil && post.Status.LastAction != nil && pre.Status.CurrentEvent == "RoundStarted" {
 		did := post.Status.LastAction.Type
 		was := pre.Players[pre.Status.CurrentPlayer].AllowedActions
-		if post.Status.LastAction.Source == pre.Status.CurrentPlayer && !hasStr(was, did) {
+		// (only judged when the engine uses the action vocabulary of the offers)
+		if post.Status.LastAction.Source == pre.Status.CurrentPlayer && hasStr(allActions, did) && !hasStr(was, did) {
 			return vlib.V("C04", "carried-out-unoffered/"+did, "%s: the engine carried out %q for seat %d, who had been offered %v", t.Op, did, pre.Status.CurrentPlayer, was)
 		}
 	}
